@@ -199,6 +199,8 @@ def check(prop, tier, seed):
                "note": r.get("note"), "task": req, "solver": r.get("solver"), "solver_output": r.get("detail"),
                "counter_model": r.get("model"), "native_replay": nat, "reproduced_on_real_code": reproduced,
                "repo": REPO, "tier": tier}
+        if out.get("kind") == "bounded":
+            doc["bounded_stand_in"] = out.get("bounded", {}).get("stand_in")
         with open(rp, "w") as fh:
             json.dump(doc, fh, indent=1, default=str)
         suffix = "" if reproduced else " no-failing-input-found"
@@ -326,6 +328,14 @@ def replay(path):
         doc = json.load(fh)
     print(f"replay of {doc['property']} obligation {doc['obligation']}")
     print(f"  solver: {doc.get('solver')} {doc.get('solver_output')}")
+    if doc.get("bounded_stand_in"):
+        mod, fn = doc["bounded_stand_in"].rsplit(".", 1)
+        nat = native({"module": mod, "name": fn, "mode": "bounded", "tier": doc.get("tier", "quick"), "seed": 0}, timeout=1800)
+        fails = nat.get("failures", [])
+        print(f"  bounded stand-in {doc['bounded_stand_in']} re-run on {REPO}: {nat.get('cases')} cases, {len(fails)} failures")
+        for f in fails[:3]:
+            print("   ", f.get("desc", "")[:500])
+        return 1 if fails else 0
     req = dict(doc["task"])
     nat0 = doc.get("native_replay") or {}
     model = nat0.get("model") or doc.get("counter_model")
